@@ -43,6 +43,169 @@ func classOf(es []tg.MessageEntityClass, i int) string {
 	return "equal-offset-length-ascending"
 }
 
+// ---- families outside the domain of the open finding ------------------------------------------
+//
+// The open finding (entitySorter.Less is `offset< || length>`, not an ordering) can only show on a
+// list that holds a pair with BOTH a greater offset and a greater length: on every other list
+// ("monotone": a greater offset never comes with a greater length) that comparator is a strict
+// weak ordering equal to the statement's order, so a disorder there has another cause. The families
+// below evaluate monotone lists only; their failures are never the known defect under a new name.
+
+func monotone(es []tg.MessageEntityClass) bool {
+	for i := range es {
+		for j := range es {
+			if es[i].GetOffset() > es[j].GetOffset() && es[i].GetLength() > es[j].GetLength() {
+				return false
+			}
+		}
+	}
+	return true
+}
+
+// mk makes entity number i of a list with a type depending on i (the sort must not depend on the type).
+func mk(i, off, n int) tg.MessageEntityClass {
+	switch i % 3 {
+	case 0:
+		return &tg.MessageEntityTextURL{Offset: off, Length: n, URL: fmt.Sprint(i)}
+	case 1:
+		return &tg.MessageEntityBold{Offset: off, Length: n}
+	}
+	return &tg.MessageEntityCustomEmoji{Offset: off, Length: n, DocumentID: int64(i)}
+}
+
+// wVals: explicit (offset, length) pairs from the magnitude grid.
+type wVals struct {
+	Pairs [][2]int `json:"offset,length"`
+}
+
+var grid = []int{0, 1, 65535, 65536, 1<<31 - 1}
+
+func judgeVals(w wVals) kit.Result {
+	es := make([]tg.MessageEntityClass, len(w.Pairs))
+	for i, p := range w.Pairs {
+		es[i] = mk(i, p[0], p[1])
+	}
+	if !monotone(es) {
+		return kit.Result{Trivial: true, Outcome: "skipped:domain-of-open-finding"}
+	}
+	in := refformat.Describe(es)
+	entity.SortEntities(es)
+	if i := ordered(es); i >= 0 {
+		return kit.Bad("sort-values:"+classOf(es, i), "SortEntities(%s) = %s: positions %d,%d out of order (input has no pair with greater offset and greater length)",
+			in, refformat.Describe(es), i, i+1)
+	}
+	return kit.Result{Trivial: len(es) < 2, Outcome: "values-ordered"}
+}
+
+// wLong: a long monotone list: the ordered base list of N entities, permuted.
+//
+//	base ties:     entity k has offset k/2 and length 2N-k   (pairs of equal offsets, lengths strictly descending)
+//	base distinct: offset k, length N-k
+//	base dups:     offset k/3, length N-k/3                  (triples of equal entities)
+//	perm rot:<r> rotation by r; swap:<k> adjacent transposition at k; rev reversal; shuffle: perfect out-shuffle
+type wLong struct {
+	N    int    `json:"n"`
+	Base string `json:"base"`
+	Perm string `json:"perm"`
+}
+
+func judgeLong(w wLong) kit.Result {
+	base := make([][2]int, w.N)
+	for k := range base {
+		switch w.Base {
+		case "ties":
+			base[k] = [2]int{k / 2, 2*w.N - k}
+		case "distinct":
+			base[k] = [2]int{k, w.N - k}
+		case "dups":
+			base[k] = [2]int{k / 3, w.N - k/3}
+		default:
+			return kit.Bad("harness-error", "base %q", w.Base)
+		}
+	}
+	idx := make([]int, w.N)
+	for i := range idx {
+		idx[i] = i
+	}
+	var arg int
+	switch {
+	case w.Perm == "rev":
+		for i := range idx {
+			idx[i] = w.N - 1 - i
+		}
+	case w.Perm == "shuffle":
+		h := (w.N + 1) / 2
+		for i := range idx {
+			if i%2 == 0 {
+				idx[i] = i / 2
+			} else {
+				idx[i] = h + i/2
+			}
+		}
+	case strings.HasPrefix(w.Perm, "rot:"):
+		fmt.Sscanf(w.Perm, "rot:%d", &arg)
+		for i := range idx {
+			idx[i] = (i + arg) % w.N
+		}
+	case strings.HasPrefix(w.Perm, "swap:"):
+		fmt.Sscanf(w.Perm, "swap:%d", &arg)
+		idx[arg], idx[arg+1] = idx[arg+1], idx[arg]
+	default:
+		return kit.Bad("harness-error", "perm %q", w.Perm)
+	}
+	es := make([]tg.MessageEntityClass, w.N)
+	for i, k := range idx {
+		es[i] = mk(i, base[k][0], base[k][1])
+	}
+	if !monotone(es) {
+		return kit.Bad("harness-error", "base list is not monotone")
+	}
+	entity.SortEntities(es)
+	if i := ordered(es); i >= 0 {
+		return kit.Bad("sort-long:"+classOf(es, i), "SortEntities(list of %d entities, base %s, permutation %s): positions %d,%d out of order: %s[%d,+%d] before %s[%d,+%d]",
+			w.N, w.Base, w.Perm, i, i+1, es[i].TypeName(), es[i].GetOffset(), es[i].GetLength(), es[i+1].TypeName(), es[i+1].GetOffset(), es[i+1].GetLength())
+	}
+	return kit.Result{Outcome: fmt.Sprintf("long-ordered/n>=12=%v", w.N >= 12)}
+}
+
+// wReuse: messages built one after the other on one builder (operations of the builder alphabet plus
+// S = ShrinkPreCode, which reverses the entity list as html.HTML / markdown.Markdown do, and Y = io.Writer Write).
+type wReuse struct {
+	API  string     `json:"api"`
+	Msgs [][]string `json:"messages"`
+}
+
+func judgeReuse(w wReuse) kit.Result {
+	b := &entity.Builder{}
+	var runs []*refformat.Run
+	base := 0
+	for _, o := range w.Msgs {
+		r, err := refformat.ExecOn(b, expand(o), w.API, base)
+		if err != nil {
+			return kit.Bad("harness-error", "%v", err)
+		}
+		base += len(r.Pieces)
+		runs = append(runs, r)
+	}
+	res := kit.Result{Trivial: true, Outcome: "fewer-than-two-entities"}
+	for i, r := range runs {
+		if !monotone(r.Entities) {
+			if res.Trivial {
+				res.Outcome = "skipped:domain-of-open-finding"
+			}
+			continue
+		}
+		if len(r.Entities) >= 2 {
+			res.Trivial, res.Outcome = false, "history-ordered"
+		}
+		if k := ordered(r.Entities); k >= 0 {
+			return kit.Bad("history:"+classOf(r.Entities, k), "message %d of %q built on one builder: Complete returned text %q with entities %s: positions %d,%d out of order "+
+				"(the list has no pair with greater offset and greater length)", i+1, w.Msgs, r.Text, refformat.Describe(r.Entities), k, k+1)
+		}
+	}
+	return res
+}
+
 func sortedInput(p []int) bool {
 	for i := 0; i+1 < len(p); i++ {
 		if p[i]/4 > p[i+1]/4 || (p[i]/4 == p[i+1]/4 && p[i]%4 < p[i+1]%4) {
@@ -86,19 +249,32 @@ func main() {
 			res.Outcome = fmt.Sprintf("entities=%d", min(len(r.Entities), 4))
 			return res
 		})
+		vals := kit.NewFamily(c, "sort-values", judgeVals)
+		long := kit.NewFamily(c, "sort-long", judgeLong)
+		hist := kit.NewFamily(c, "history", judgeReuse)
 		if c.Replaying() {
 			return
 		}
 		maxList, depth := 4, 3
+		histLast := 2
+		valLen, longNs := 3, []int{2, 3, 11, 12, 13, 16, 100, 101, 128}
 		if c.Thorough() {
-			maxList, depth = 5, 4
+			maxList, depth, histLast = 5, 4, 3
+			valLen, longNs = 4, []int{2, 3, 5, 8, 11, 12, 13, 14, 16, 31, 32, 33, 64, 99, 100, 101, 102, 128, 200, 256, 1000}
 		}
 		alpha := alphabet()
 		c.Rule("sort: every list of 0..%d entities with offset and length each in {0,1,2,3} (16 (offset,length) values, all ties) is passed to "+
 			"entity.SortEntities; builder: every valid sequence of 1..%d operations of the C35 alphabet (%d operations: Plain/Format over strings with "+
 			"and without trailing white space, Format with two kinds, Token open, Token.Apply innermost/outermost) on entity.Builder and through "+
 			"styling.Perform, then Complete. Oracle = the statement on each adjacent pair of the result: offset ascending, equal offsets by length "+
-			"descending. Lists with fewer than two entities are trivial.", maxList, depth, len(alpha))
+			"descending. Lists with fewer than two entities are trivial. "+
+			"Outside the domain of the open finding (lists without a pair that has both a greater offset and a greater length, where the shipped comparator is a valid ordering): "+
+			"sort-values: every such list of 2..%d entities with offset and length in %v (16-bit and 32-bit boundaries), entity types mixed; "+
+			"sort-long: the ordered list of N in %v entities (three tie patterns: pairs of equal offsets, all distinct, triples of equal entities) under every rotation, every adjacent "+
+			"transposition, reversal and the perfect shuffle (sort.Sort changes algorithm at 12 elements; 100 is Telegram's entity limit); "+
+			"history: every valid sequence of 1..%d operations of the builder alphabet plus ShrinkPreCode (reverses the stored list, as the HTML/Markdown parsers do) and "+
+			"io.Writer Write on a fresh builder, and 2 messages built one after the other on ONE builder (first: every sequence of 0..2, second: of 1..%d such operations), both APIs; "+
+			"every returned list of that kind is judged.", maxList, depth, len(alpha), valLen, grid, longNs, depth, histLast)
 		c.Assume("only the order is judged (not that the result is a permutation, nor TDLib's type-priority tie break, which the statement does not mention)")
 		c.Set("max_list_len", maxList)
 		c.Set("builder_depth", depth)
@@ -125,6 +301,80 @@ func main() {
 			for length := 1; length <= depth && !c.Expired(); length++ {
 				enumerate(alpha, length, func(o []string) { ops.Eval(wOps{API: api, Ops: o}) })
 			}
+		}
+		// magnitude grid, monotone lists only
+		var pairs [][2]int
+		for _, o := range grid {
+			for _, l := range grid {
+				pairs = append(pairs, [2]int{o, l})
+			}
+		}
+		for n := 2; n <= valLen && !c.Expired(); n++ {
+			total := 1
+			for i := 0; i < n; i++ {
+				total *= len(pairs)
+			}
+			workers := 1
+			if n >= 4 {
+				workers = runtime.NumCPU()
+			}
+			kit.Parallel(total, workers, func(idx int) {
+				p := make([][2]int, n)
+				for i := n - 1; i >= 0; i-- {
+					p[i] = pairs[idx%len(pairs)]
+					idx /= len(pairs)
+				}
+				vals.Eval(wVals{Pairs: p})
+			})
+		}
+		// long lists
+		for _, n := range longNs {
+			for _, base := range []string{"ties", "distinct", "dups"} {
+				long.Eval(wLong{N: n, Base: base, Perm: "rev"})
+				long.Eval(wLong{N: n, Base: base, Perm: "shuffle"})
+				for r := 0; r < n; r++ {
+					long.Eval(wLong{N: n, Base: base, Perm: fmt.Sprintf("rot:%d", r)})
+				}
+				for k := 0; k+1 < n; k++ {
+					long.Eval(wLong{N: n, Base: base, Perm: fmt.Sprintf("swap:%d", k)})
+				}
+			}
+		}
+		// histories on one builder
+		halpha := append(append([]string{}, alpha...), "S", "Y:a ", "Y:\U0001F600")
+		var earlier, lasts [][]string
+		for n := 0; n <= 2; n++ {
+			enumerate(halpha, n, func(o []string) { earlier = append(earlier, o) })
+		}
+		for n := 1; n <= depth; n++ {
+			enumerate(halpha, n, func(o []string) { lasts = append(lasts, o) })
+		}
+		for _, api := range []string{"builder", "styling"} {
+			if c.Expired() {
+				break
+			}
+			// a fresh builder with the extended alphabet (earlier message empty), then the pairs
+			var ws []wReuse
+			for _, l := range lasts {
+				ws = append(ws, wReuse{API: api, Msgs: [][]string{l}})
+			}
+			var short [][]string
+			for _, l := range lasts {
+				if len(l) <= histLast {
+					short = append(short, l)
+				}
+			}
+			for _, l := range short {
+				for _, e := range earlier {
+					ws = append(ws, wReuse{API: api, Msgs: [][]string{e, l}})
+				}
+			}
+			head := min(len(ws), 2048)
+			for i := 0; i < head; i++ {
+				hist.Eval(ws[i])
+			}
+			rest := ws[head:]
+			kit.Parallel(len(rest), runtime.NumCPU(), func(i int) { hist.Eval(rest[i]) })
 		}
 		if c.Expired() {
 			c.NotExhaustive("time budget hit")
